@@ -149,6 +149,10 @@ int c_flathomogen(int nval, int maxnan, int * aggindex,
     /* In case NAN is not defined */
     nan = zero/zero;
 
+    /* Nothing to homogenise: aggindex[0] does not exist */
+    if(nval < 1)
+        return DUTILS_ERROR + __LINE__;
+
     /* Initialise */
     iaprev = aggindex[0];
     ia = 0;
